@@ -38,6 +38,18 @@ def I1(p):
     return cs
 
 
+def invariant_context(p):
+    """does the path carry the tail invariant for some version of the world?"""
+    from pyvc import smt
+
+    for c in p.pc:
+        if z3.is_quantifier(c):
+            sy = smt.symbols(c)
+            if any(x.startswith(("G_rest", "G.rest")) for x in sy):
+                return True
+    return False
+
+
 def has_clauses(p, clauses):
     for nm, f in clauses:
         if not any(c.eq(f) for c in p.pc):
@@ -353,6 +365,14 @@ class Read(Contract):
         size = p.w["T.size"]
         out = []
         inv = has_clauses(p, I1(p))
+        if not inv and invariant_context(p):
+            # the caller works under the tail invariant but the world was rewritten since
+            # it was last established: re-establish it here (obligations), then use it
+            p = p.fork()
+            for nm, f in I1(p):
+                ex.oblige(p, "node.read:" + nm, f, ln, "pre")
+            assume_all(p, I1(p))
+            inv = True
         for q, c in ex.branch(p, bz < size):
             q = q.fork()
             o = q.obj(recv)
@@ -485,6 +505,9 @@ class Write(Contract):
         size0 = p0.w["T.size"]
         d0 = [to_z3(x) for x in node_data(p0, n)]
         t0 = to_z3(p0.obj(n).f["tail"])
+        if tag == "new":
+            tt, ii = fresh("t", BYTES), fresh("i", INT)
+            ex.oblige(p0, "lemma:tail-split", tail_split_lemma(tt, ii), None)
         for p1, kind, val in res:
             if kind == "raise":
                 ex.oblige(p1, "raises-nothing(%s)" % val[0], False, val[1])
@@ -587,6 +610,12 @@ class Write(Contract):
         return out
 
 
+def tail_split_lemma(t, i):
+    L = blen(t)
+    m = z3.If(L - CHUNK * i < CHUNK, L - CHUNK * i, CHUNK)
+    return z3.Implies(z3.And(i >= 0, CHUNK * i < L), z3.Extract(t, CHUNK * i, L - CHUNK * i) == bcat(z3.Extract(t, CHUNK * i, m), z3.Extract(t, CHUNK * (i + 1), L - CHUNK * (i + 1))))
+
+
 def tails_after(w, head, name="new"):
     """every block after `head` is a tail block carrying nothing but its chunk"""
     a = z3.Int("a")
@@ -631,6 +660,11 @@ def write_loop_inv(ex, p):
     for k, f in enumerate(FIELDS):
         cs.append(("head[%s]==data" % f, w.f(f, head) == Wd._coerce(d[k], Wd.SORTS[k])))
         cs.append(("old-blocks[%s]-unchanged" % f, z3.ForAll([a], z3.Implies(a < head, w.f(f, a) == old.f(f, a)))))
+    # lemma (discharged on its own in Write.check as `lemma:tail-split`): what remains of
+    # the tail after i chunks is chunk i followed by what remains after i+1 chunks
+    lem = tail_split_lemma(t, i)
+    if not any(c.eq(lem) for c in p.pc):
+        p.assume(lem)
     fl = w.f("flags", a)
     inv = I1(p)
     # I1a holds everywhere but at the frontier block while chunks remain
